@@ -258,7 +258,7 @@ def stored_signature(alias):
         return {'error': '%s: %s' % (type(e).__name__, e)}
 
 
-def _insert_rows(nrows):
+def _insert_rows(nrows, m2m=False):
     """Insert nrows rows into every table of the generated apps (ids 1..n),
     values chosen by column type; nullable columns get NULL in row 2."""
     from django.apps import apps
@@ -268,7 +268,7 @@ def _insert_rows(nrows):
               if a not in ('django.contrib.contenttypes', 'django_evolution')]
     with connection.constraint_checks_disabled():
         for label in labels:
-            for model in apps.get_app_config(label).get_models():
+            for model in apps.get_app_config(label).get_models(include_auto_created=m2m):
                 for r in range(nrows):
                     cols, vals = [], []
                     for f in model._meta.local_fields:
@@ -372,7 +372,7 @@ def main():
             elif action == 'snapshot':
                 pass
             elif action == 'insert_rows':
-                _insert_rows(req.get('nrows', 2))
+                _insert_rows(req.get('nrows', 2), m2m=bool(req.get('m2m_rows')))
             else:
                 raise ValueError('unknown action %r' % action)
     except BaseException as e:
